@@ -138,6 +138,7 @@ typedef struct {
     uint32_t qsize; uint32_t flags;
     size_t first_op[2], n_ops[2];   /* op ranges per thread (after the definition prefix) */
     size_t ndefs;
+    int late_defs, rejected_defs;
     char feat[200];
 } tprog_t;
 
@@ -150,8 +151,8 @@ static void build_tprog(tprog_t *tp, rng_t *r, const char *focus) {
     tp->flags = rng_chance(r, 1, 2) ? JLS_TWR_FLAG_DROP_ON_OVERFLOW : 0;
     tp->nthreads = rng_chance(r, 1, 2) ? 2 : 1;
     prog_add_source(p, 1, "twr-src");
-    uint16_t sig_of[2][2]; int nsig_of[2] = {0, 0};
-    const dtype_t *types[2][2];
+    uint16_t sig_of[2][3]; int nsig_of[2] = {0, 0};
+    const dtype_t *types[2][3];
     for (int th = 0; th < tp->nthreads; ++th) {
         int ns = (int) rng_range(r, 1, 2);
         for (int k = 0; k < ns; ++k) {
@@ -172,11 +173,45 @@ static void build_tprog(tprog_t *tp, rng_t *r, const char *focus) {
     for (int th = 0; th < tp->nthreads; ++th) {
         tp->first_op[th] = p->n;
         int nops = (int) rng_range(r, 10, flush_heavy ? 60 : 120);
-        int64_t pos[2] = {0, 0};
+        int64_t pos[3] = {0, 0, 0};
         int64_t ts = th * 1000000;
+        /* a signal defined while streaming (the definition call runs in the application thread, concurrently
+         * with the writer thread), and definition calls that the writer rejects */
+        int late_at = rng_chance(r, 1, 3) ? (int) rng_range(r, 2, nops / 2) : -1;
         for (int q = 0; q < nops; ++q) {
             int kind = (int) rng_below(r, 100);
             op_t *o;
+            if (q == late_at) {
+                const dtype_t *t = &DTYPES[rng_below(r, 15)];
+                struct jls_signal_def_s d, nm;
+                uint16_t sid = (uint16_t) (th * 10 + 5);
+                gen_def(r, &d, sid, 1, t, DEF_MINIMAL);
+                d.annotation_decimate_factor = 3; d.utc_decimate_factor = 2; d.sample_id_offset = 0;
+                def_normalised(&d, &nm);
+                int si = prog_add_signal(p, &d, "late", "u", PAT_WALK, rng_u64(r));
+                p->sig[p->ops[si].def].blk = nm.samples_per_data;
+                p->ops[si].thread = (uint8_t) th;
+                sig_of[th][nsig_of[th]] = sid; types[th][nsig_of[th]] = t; nsig_of[th]++;
+                tp->late_defs++;
+                continue;
+            }
+            if (rng_chance(r, 1, 40)) {
+                /* rejected definition: a second definition of an existing signal id, or a signal naming an undefined source */
+                int si;
+                if (rng_chance(r, 1, 2)) {
+                    /* the same definition again (the op refers to the existing program signal) */
+                    op_t *dd = prog_add(p, OP_SIGNAL); dd->id = sig_of[th][0];
+                    for (size_t z = 0; z < p->nsig; ++z) if (p->sig[z].def.signal_id == sig_of[th][0]) dd->def = (uint32_t) z;
+                    si = (int) (dd - p->ops);
+                } else {
+                    struct jls_signal_def_s d;
+                    gen_def(r, &d, (uint16_t) (200 + th), 77, &DTYPES[0], DEF_MINIMAL);
+                    si = prog_add_signal(p, &d, "orphan", "u", PAT_WALK, 1);
+                }
+                p->ops[si].thread = (uint8_t) th; p->ops[si].expect_reject = 1;
+                tp->rejected_defs++;
+                continue;
+            }
             int k = (int) rng_below(r, (uint64_t) nsig_of[th]);
             uint16_t sid = sig_of[th][k];
             const dtype_t *t = types[th][k];
@@ -215,7 +250,7 @@ static void build_tprog(tprog_t *tp, rng_t *r, const char *focus) {
         }
         tp->n_ops[th] = p->n - tp->first_op[th];
     }
-    snprintf(tp->feat, sizeof(tp->feat), "q=%u|drop=%d|threads=%d", tp->qsize, tp->flags ? 1 : 0, tp->nthreads);
+    snprintf(tp->feat, sizeof(tp->feat), "q=%u|drop=%d|threads=%d|late-def=%d|rej-def=%d", tp->qsize, tp->flags ? 1 : 0, tp->nthreads, tp->late_defs > 0, tp->rejected_defs > 0);
 }
 
 /* ------------------------------ execution -------------------------------------------- */
@@ -358,7 +393,12 @@ static void run_case(uint64_t idx, void *vctx) {
     model_t m; model_init(&m, p);
     for (size_t i = 0; i < tp.ndefs; ++i) model_apply(&m, i);
     size_t nq = 0; op_t **q = malloc((p->n + 1) * sizeof(op_t *));
-    for (size_t i = tp.ndefs; i < p->n; ++i) if (p->ops[i].kind != OP_FLUSH && p->ops[i].rc == 0) {
+    for (size_t i = tp.ndefs; i < p->n; ++i) if (p->ops[i].kind == OP_SIGNAL || p->ops[i].kind == OP_SOURCE) {
+        /* definition calls are executed by the caller, not queued */
+        if (p->ops[i].rc == 0 && p->ops[i].expect_reject) v_violation("C06", "rejectable-definition-accepted", NULL, "a definition that must be rejected (duplicate id / undefined source) returned 0 through the threaded writer");
+        if (p->ops[i].rc == 0) model_apply(&m, i);
+    }
+    for (size_t i = tp.ndefs; i < p->n; ++i) if (p->ops[i].kind != OP_FLUSH && p->ops[i].kind != OP_SIGNAL && p->ops[i].kind != OP_SOURCE && p->ops[i].rc == 0) {
         if ((p->ops[i].uid >> 32) == 0) v_violation("C06", "accepted-call-never-queued", NULL, "a call returned 0 but no queue allocation was observed for it");
         q[nq++] = &p->ops[i];
     }
@@ -382,6 +422,7 @@ static void run_case(uint64_t idx, void *vctx) {
         struct jls_wr_s *sw = NULL;
         if (!jls_wr_open(&sw, ref)) {
             for (size_t i = 0; i < tp.ndefs; ++i) { op_t o = p->ops[i]; exec_op_sync(sw, p, &o); }
+            for (size_t i = tp.ndefs; i < p->n; ++i) if ((p->ops[i].kind == OP_SIGNAL || p->ops[i].kind == OP_SOURCE) && p->ops[i].rc == 0) { op_t o = p->ops[i]; exec_op_sync(sw, p, &o); }
             for (size_t i = 0; i < nq; ++i) { op_t o = *q[i]; exec_op_sync(sw, p, &o); if (o.rc) v_note("C06", "reference: synchronous writer rejected an accepted call rc=%d", o.rc); }
             jls_wr_close(sw);
             dump_t da, db; uint64_t ds = vmix(g_seed, 99);
@@ -392,6 +433,9 @@ static void run_case(uint64_t idx, void *vctx) {
     }
     if (v_violation_count() != before) v_note("C06", "%s", wj);
     /* ---- evidence ---- */
+    v_feature("C14", g_io.n_write > 0, "twr|threads=%d|late-def=%d|hdr-rewrites=%d", tp.nthreads, tp.late_defs > 0, g_io.n_inplace_hdr > 8 ? 2 : g_io.n_inplace_hdr > 0);
+    v_count("C14", "backend_writes", (int64_t) g_io.n_write); v_count("C14", "appends", (int64_t) g_io.n_append); v_count("C14", "inplace_header_rewrites", (int64_t) g_io.n_inplace_hdr);
+    v_count("C14", "inplace_head_table_rewrites", (int64_t) g_io.n_inplace_head); v_count("C14", "threaded_writer_runs", 1);
     v_feature("C06", nq > 0, "%s|%s|wrap=%d|full=%d|reject=%d", tp.feat, schedfeat, q_wraps > 0, q_fails > 0, n_rejected > 0);
     v_feature("C07", n_flush_ok + n_flush_timeout > 0, "%s|%s|flush-ok=%d|flush-timeout=%d|busy=%d", tp.feat, schedfeat, n_flush_ok > 0, n_flush_timeout > 0, n_busy_timeouts > 0);
     v_count("C06", "calls_accepted", n_accepted); v_count("C06", "calls_rejected", n_rejected);
